@@ -695,6 +695,62 @@ func ruleRepStackEscape(c *Ctx, r *R) {
 			}
 		}
 	}
+	// functions that return a view of the operand stack (directly, through a local, or through
+	// another such function)
+	returnsView := map[types.Object]bool{}
+	for round := 0; round < 3; round++ {
+		for _, name := range c.FuncNames() {
+			fd := c.funcs[name]
+			if fd.Body == nil || fd.Type.Results == nil {
+				continue
+			}
+			fo := c.Info.Defs[fd.Name]
+			loc := map[types.Object]bool{}
+			view := func(e ast.Expr) bool {
+				e = unparen(e)
+				if isStackRooted(e) {
+					return true
+				}
+				if se, ok := e.(*ast.SliceExpr); ok {
+					e = unparen(se.X)
+				}
+				if id, ok := e.(*ast.Ident); ok && loc[c.Obj(id)] {
+					return true
+				}
+				if call, ok := e.(*ast.CallExpr); ok && returnsView[c.Callee(call)] {
+					return true
+				}
+				return false
+			}
+			for k := 0; k < 3; k++ {
+				ast.Inspect(fd.Body, func(n ast.Node) bool {
+					if as, ok := n.(*ast.AssignStmt); ok && len(as.Lhs) == len(as.Rhs) {
+						for i, l := range as.Lhs {
+							if id, ok := l.(*ast.Ident); ok && view(as.Rhs[i]) {
+								if _, isSl := c.TypeOf(as.Rhs[i]).Underlying().(*types.Slice); isSl {
+									loc[c.Obj(id)] = true
+								}
+							}
+						}
+					}
+					return true
+				})
+			}
+			ast.Inspect(fd.Body, func(n ast.Node) bool {
+				if _, isLit := n.(*ast.FuncLit); isLit {
+					return false
+				}
+				if rs, ok := n.(*ast.ReturnStmt); ok {
+					for _, e := range rs.Results {
+						if _, isSl := c.TypeOf(e).Underlying().(*types.Slice); isSl && view(e) {
+							returnsView[fo] = true
+						}
+					}
+				}
+				return true
+			})
+		}
+	}
 	for _, name := range c.FuncNames() {
 		fd := c.funcs[name]
 		if fd.Body == nil {
@@ -731,6 +787,9 @@ func ruleRepStackEscape(c *Ctx, r *R) {
 					case *ast.Ident:
 						t = taint[c.Obj(x)]
 					case *ast.CallExpr:
+						if returnsView[c.Callee(x)] {
+							t = true
+						}
 						if c.CalleeName(x) == "builtin.append" && len(x.Args) > 0 {
 							// append onto a stack view writes into / may alias the stack's array
 							first := unparen(x.Args[0])
@@ -759,6 +818,34 @@ func ruleRepStackEscape(c *Ctx, r *R) {
 				return true
 			}
 			callee := c.Callee(call)
+			// a call through a function value whose code is not ours (a native handed to NewFunc,
+			// a loader, an option): what it does with a []Value argument is unknown — it may keep
+			// it — so the argument must not be a view of the operand stack
+			if _, isFunc := callee.(*types.Func); !isFunc {
+				if _, isConv := c.IsConversion(call); !isConv {
+					if _, isBuiltin := callee.(*types.Builtin); !isBuiltin {
+						for _, a := range call.Args {
+							st, ok := c.TypeOf(a).Underlying().(*types.Slice)
+							if !ok || !isNamed(st.Elem(), "Value") {
+								continue
+							}
+							tainted := isStackRooted(a)
+							if id, ok := unparen(a).(*ast.Ident); ok && taint[c.Obj(id)] {
+								tainted = true
+							}
+							if se, ok := unparen(a).(*ast.SliceExpr); ok {
+								if id, ok := unparen(se.X).(*ast.Ident); ok && taint[c.Obj(id)] {
+									tainted = true
+								}
+							}
+							key := fmt.Sprintf("%s -> (func value)(%s)", name, nosp(c.Src(a)))
+							r.check(!tainted, key, c.Pos(call), "a function value receives its []Value argument in a slice of its own",
+								"a function value (a native given to NewFunc) is called with a window into the live operand stack: a native that keeps its args — NewSlice(TypeInt32, args) — sees them overwritten by its own result and by every later push (pair(3,4) reads back [2 2])")
+						}
+					}
+				}
+				return true
+			}
 			ps := ret[callee]
 			if ps == nil {
 				return true
